@@ -1,5 +1,7 @@
 import RsslVerif.Model.Compile
 import RsslVerif.Model.PipelineTyper
+import RsslVerif.Model.PipelineNames
+import RsslVerif.Thm.C15
 /-!
 # C17 — pipelines are selected and compiled independently
 
@@ -474,6 +476,73 @@ example : (typeCheck [.pipe (blockCs "P0" "a"), .func (fnCs "a")]).toOption.isNo
 example : (typeCheck (deletePipes (· == "P1")
     [.func (fnCs "a"), .pipe (blockCs "P0" "a"), .func (fnCs "b"), .pipe (blockCs "P1" "b")])).toOption.map
     (fun s => s.pipes.map (·.name)) = some ["P1"] := by decide
+
+
+/-! ## the reported HLSL entry name (composition with C15's model of the name map) -/
+
+open RsslVerif.Model RsslVerif.Model.PipelineNames in
+/-- **The reported entry name does not depend on the Pipeline blocks.**  The HLSL stage report carries the leaf name the
+    whole-module name map gives the entry function (`f_k` when the file has another symbol called `f` in that namespace,
+    before or after the block).  That name is a function of the function registry and of the other named symbols only,
+    and the registry of a file is the same with any set of Pipeline blocks deleted: compiling a pipeline alone reports
+    the same entry name as compiling it as part of the whole file. -/
+theorem reported_entry_name_ignores_pipelines (reserved : List String) (o : Others) (keep : String → Bool)
+    (items : List Item) (i : Nat) :
+    entryName reserved o (registryOf (deletePipes keep items)) i = entryName reserved o (registryOf items) i := by
+  rw [registry_ignores_pipelines]
+
+open RsslVerif.Model RsslVerif.Model.PipelineNames in
+/-- **Reported entry names are unambiguous.**  Two different registry entries that the name map places in the same
+    namespace are never reported under the same name - whatever the source names are (overloads, a method and a free
+    function, a function that already has the name `f_0`, reserved words): the stages of one pipeline, and the same
+    stage of two pipelines, name different emitted functions iff their entry functions differ (C15
+    `injective_per_scope` applied to the whole-module map). -/
+theorem reported_entry_names_distinct {reserved : List String} {o : Others} {reg : List FnDecl} {i j : Nat}
+    {names : List Names.Named} (hb : Names.build reserved (nameInput o reg) = .ok names) {n₁ n₂ : String}
+    (h₁ : entryName reserved o reg i = .ok n₁) (h₂ : entryName reserved o reg j = .ok n₂) (hij : i ≠ j)
+    (hs : (Names.lookup names ⟨.func, i⟩).map (·.scope) = (Names.lookup names ⟨.func, j⟩).map (·.scope)) :
+    n₁ ≠ n₂ := by
+  unfold entryName at h₁ h₂
+  rw [hb] at h₁ h₂
+  cases ha : Names.lookup names ⟨.func, i⟩ with
+  | none => simp [ha] at h₁
+  | some a =>
+    cases hb' : Names.lookup names ⟨.func, j⟩ with
+    | none => simp [hb'] at h₂
+    | some b =>
+      simp only [ha, Except.ok.injEq] at h₁
+      simp only [hb', Except.ok.injEq] at h₂
+      subst h₁; subst h₂
+      have ham : a ∈ names ∧ a.sym = ⟨.func, i⟩ := by
+        unfold Names.lookup at ha
+        exact ⟨List.mem_of_find?_eq_some ha, by simpa using List.find?_some ha⟩
+      have hbm : b ∈ names ∧ b.sym = ⟨.func, j⟩ := by
+        unfold Names.lookup at hb'
+        exact ⟨List.mem_of_find?_eq_some hb', by simpa using List.find?_some hb'⟩
+      apply RsslVerif.Thm.C15.injective_per_scope hb a ham.1 b hbm.1
+      · rw [ham.2]; intro h; cases h
+      · rw [hbm.2]; intro h; cases h
+      · simpa [ha, hb'] using hs
+      · rw [ham.2, hbm.2]; intro e; apply hij; cases e; rfl
+
+/-- the non-function symbols of the reduced seed-1 soak program -/
+def soakOthers : RsslVerif.Model.PipelineNames.Others := ⟨[], [(none, "CbS"), (none, "S_ms_0")], [(none, "g_r0")]⟩
+
+/-- a defined, non-template function of the given name and shape -/
+def fn (n sh : String) : FnDecl := ⟨n, sh, false, true, none⟩
+
+open RsslVerif.Model RsslVerif.Model.PipelineNames in
+/-- non-vacuity, and the program of the seed-1 soak: a method `ms_0` (mesh entry, registry index 2) and a helper
+    `void ms_0()` defined after the Pipeline block are one group of the root namespace - the entry is reported as
+    `ms_0_0`, the helper is `ms_0_1`; with `ms_0_0` already taken by a function of its own the entry becomes `ms_0_1`;
+    a same-named function inside `ns1` is another scope and renames nothing. -/
+example :
+    (entryName ["abs"] soakOthers [fn "helper0" "h", fn "ps_1" "p", fn "ms_0" "hM", fn "ms_0" "h"] 2).toOption = some "ms_0_0" ∧
+    (entryName ["abs"] soakOthers [fn "helper0" "h", fn "ps_1" "p", fn "ms_0" "hM", fn "ms_0" "h"] 3).toOption = some "ms_0_1" ∧
+    (entryName ["abs"] soakOthers [fn "ms_0_0" "h", fn "ps_1" "p", fn "ms_0" "m", fn "ms_0" "h"] 2).toOption = some "ms_0_1" ∧
+    (entryName ["abs"] ⟨[(none, "ns1")], [], []⟩ [fn "ms_0" "m", fn "ms_0" "hN"] 0).toOption = some "ms_0" ∧
+    (entryName ["abs"] soakOthers [fn "abs" "c"] 0).toOption = some "abs_0" := by
+  refine ⟨?_, ?_, ?_, ?_, ?_⟩ <;> decide +kernel
 
 end Typer
 
